@@ -179,12 +179,19 @@ theorem reverse_iteration_refines (p : Params K) (pv : p.Valid) (t : Tree K V) (
     rderef t.leafChain (iterN (ritInc t.leafChain) r (toReverse t.leafChain e)) = t.toList[t.toList.length - 1 - r]? :=
   iteration_rev_spec p pv t ht e he r hr
 
--- OPEN: iterator_conversion_refines — the converting constructors at arbitrary positions (`toReverse`/`toForward`
---   after the B1 repair: `*reverse_iterator(it) = *prev(it)`, `iterator(rit) = rit.base()`) and
---   `reverse_iterator::operator--`; modelled, compared with the implementation and with std on every run.
-def iterator_conversion_refines_statement (p : Params K) : Prop :=
-  ∀ (t : Tree K V), TreeInv p t → ∀ r, 1 ≤ r → r ≤ t.toList.length →
-    rderef t.leafChain (toReverse t.leafChain (iterN (itInc t.leafChain) r (0, 0))) = t.toList[r - 1]?
+/-- the converting constructor after the repair of B1: `*reverse_iterator(it)` is the entry before `it`
+(std: `*prev(it)`), at every position incl. leaf boundaries and `end()` -/
+theorem iterator_conversion_refines (p : Params K) (pv : p.Valid) (t : Tree K V) (ht : TreeInv p t) (r : Nat)
+    (h1 : 1 ≤ r) (h2 : r ≤ t.toList.length) :
+    rderef t.leafChain (toReverse t.leafChain (iterN (itInc t.leafChain) r (0, 0))) = t.toList[r - 1]? :=
+  rconv_spec p pv t ht r h1 h2
+
+-- OPEN: reverse_to_forward_refines — `iterator(rit)` = `rit.base()` (`toForward`) and `reverse_iterator::operator--`;
+--   modelled, compared with the implementation and with std on every run; no theorem.
+def reverse_to_forward_refines_statement (p : Params K) : Prop :=
+  ∀ (t : Tree K V), TreeInv p t → ∀ e, endPos t.leafChain = some e → ∀ r, 1 ≤ r → r ≤ t.toList.length →
+    deref t.leafChain (toForward t.leafChain (iterN (ritInc t.leafChain) r (toReverse t.leafChain e))) =
+      t.toList[t.toList.length - r]?
 
 /-- `bulk_load` of an ordered range (level-by-level construction, `n / (parts − i)` distribution): defined,
 the container holds exactly the range, and the invariant holds -/
